@@ -65,7 +65,7 @@ struct IoFault : Profile {
     // The first cases of every batch are directed programs, one per storage layout: create the object, close, open again,
     // read it, rewrite it, read it, close.  Every layout's create, fetch, write-back and release paths then meet every
     // fault in every batch, however small (a random program reads a chunked dataset back only now and then).
-    static const int NDIRECTED = 18;
+    static const int NDIRECTED = 19;
     static void directed(std::vector<Op> &ops, Rng &r, int t)
     {
         int64_t ds = (int64_t)(r.next() >> 16), ds2 = (int64_t)(r.next() >> 16);
@@ -106,6 +106,16 @@ struct IoFault : Profile {
             ops.push_back(mkop(0, "vsappend", {0, 25, 0, ds2}));
             ops.push_back(mkop(0, "vsread", {0}));
             ops.push_back(mkop(0, "vgread", {0}));
+        }
+        else if (t == 18) {
+            // the switch back to fill mode stores the file's description in the middle of the session
+            ops.push_back(mkop(0, "sdnew", {0, 0, 3, 2, 0, ds, 0}));
+            ops.push_back(mkop(0, "sdfillmode", {0}));
+            ops.push_back(mkop(0, "sdnew", {1, 0, 2, 2, 2, ds2, 0}));
+            ops.push_back(mkop(0, "sdfillmode", {1}));
+            ops.push_back(mkop(0, "end", {}));
+            ops.push_back(mkop(0, "sdread", {0}));
+            ops.push_back(mkop(0, "sdread", {1}));
         }
         else if (t == 17) {
             // a reader holds the file while the session's writing open swaps the stream under it
@@ -202,10 +212,22 @@ struct IoFault : Profile {
         }
     }
 
+    // Every prefix of a program that ends with a close is a workload of its own: what the file holds when a session has
+    // been closed, whether every call up to there reported success, and whether a fault had fired by then.
+    std::vector<std::array<uint64_t, 4>> ends;
+    void session_end(Mixed &mx, int op)
+    {
+        uint64_t fired = 0;
+        for (auto &f : simfs::faults())
+            fired += f.fired ? 1 : 0;
+        ends.push_back({(uint64_t)op, mx.call_failed ? 0u : 1u, simfs::disk_hash(simfs::disk()), fired});
+    }
+
     // mode 0: run with the plan's faults.  mode 2: additionally return the event list.
     void execute(Ctx &ctx) override
     {
         const Plan &p = ctx.plan;
+        ends.clear();
         simfs::set_buffered(p.knob("buffered", 0) != 0, (int)p.knob("bufsize", 64));
         simfs::set_faults(p.faults);
         Mixed mx(ctx, "/sim/io.hdf");
@@ -237,9 +259,12 @@ struct IoFault : Profile {
                 ctx.st.ops_done++;
             else
                 ctx.st.ops_skipped++;
+            if (o.kind == "end")
+                session_end(mx, (int)i);
         }
         ctx.begin_op((int)p.ops.size());
         mx.end_session();
+        session_end(mx, (int)p.ops.size());
         Blob b;
         b.u64(mx.call_failed ? 0 : 1);
         b.u64((uint64_t)(int64_t)mx.failed_op);
@@ -263,6 +288,10 @@ struct IoFault : Profile {
         b.u64((uint64_t)fkind);
         b.u64((uint64_t)(int64_t)fev);
         b.str(simfs::fault_site());
+        b.u64(ends.size());
+        for (auto &e : ends)
+            for (uint64_t x : e)
+                b.u64(x);
         if (ctx.mode == 2) {
             const auto &ev = simfs::events();
             b.u64(ev.size());
@@ -281,6 +310,7 @@ struct IoFault : Profile {
         std::string failed_call, site;
         uint64_t    fired = 0;
         std::vector<std::array<int, 3>> events;
+        std::vector<std::array<uint64_t, 4>> ends; // (op, every call so far succeeded, disk hash, faults fired so far) at each close
     };
     static Res parse(const std::string &s, bool with_events)
     {
@@ -295,6 +325,12 @@ struct IoFault : Profile {
         r.fault_kind  = (int)b.g64();
         r.fault_ev    = (int)(int64_t)b.g64();
         r.site        = b.gstr();
+        for (uint64_t n = b.g64(), i = 0; i < n; i++) {
+            std::array<uint64_t, 4> e;
+            for (auto &x : e)
+                x = b.g64();
+            r.ends.push_back(e);
+        }
         if (with_events) {
             uint64_t n = b.g64();
             for (uint64_t i = 0; i < n; i++) {
@@ -353,11 +389,19 @@ struct IoFault : Profile {
             ex.agg_extra.probes["fault-not-reached"]++;
             return Outcome();
         }
-        if (!r.all_ok) {
+        // a session that was closed with every call so far reporting success, after the fault had fired, left the file the
+        // fault-free run leaves at that point -- whatever a later session reports when it trips over the damage
+        Res d0 = parse(dry.blob, false);
+        bool early = false;
+        for (size_t k = 0; k < r.ends.size() && k < d0.ends.size() && !early; k++)
+            early = r.ends[k][0] == d0.ends[k][0] && r.ends[k][3] > 0 && r.ends[k][1] == 1 && r.ends[k][2] != d0.ends[k][2];
+        if (early && !r.all_ok)
+            ex.agg_extra.probes["silent-until-a-later-session"]++;
+        if (!r.all_ok && !early) {
             ex.agg_extra.probes["fault-reported"]++;
             return Outcome();
         }
-        if (o.st.diskhash == dry.st.diskhash && o.st.transcript == dry.st.transcript) {
+        if (!early && o.st.diskhash == dry.st.diskhash && o.st.transcript == dry.st.transcript) {
             ex.agg_extra.probes["fault-harmless"]++; // swallowed, but nothing observable changed
             return Outcome();
         }
